@@ -399,9 +399,10 @@ _c("C18",
    "(C18_guard_analysis_sound, induction over programs and conditions): an accepted chain never ends in an exception raised by a "
    "guard expression itself (comparison, hash, len, float(), %). Today's chains pass (C18_kinds_ok, kernel re-check each run), so a "
    "scalar field rejects only through raise statements whose message names the field (C18_rejection_is_templated, "
-   "C18_rejection_names_field) - for ALL values for Number, Integer and its sign variants, String, Enum over a value list and the "
-   "collection helpers; on a stated restricted domain for the known defects (sign mix-ins F22a, Boolean F22b, Enum over a class "
-   "F22c, Float F24), whose unconditional statement is refuted by witness. COLLECTING: collect-all reports exactly the invalid bound "
+   "C18_rejection_names_field) - for ALL values and every scalar field class: Number, Integer, Float, each under every sign mix-in, "
+   "String, Boolean, Enum over a value list and over a class, and the type-and-uniqueness helper (C18_rejection_is_templated_all_values, "
+   "C18_scalar_kinds_unrestricted; since the fix commits for F22a/b/c and F24 no scalar chain needs a restricted domain; the shapes "
+   "that order / hash / convert before the class test are still rejected by the analysis: C18_unguarded_shapes_rejected). COLLECTING: collect-all reports exactly the invalid bound "
    "arguments, once each, in order; fail-fast reports the first; exceptions other than TypeError/ValueError leave the collect-all "
    "loop (construct_u, equal to construct when all are caught); the helper is total; the deserialization collect-all clause is "
    "characterised and refuted (F19). Real str(exception), ErrorInfo, construction and deserialization outcomes, and the outcome "
